@@ -5,26 +5,30 @@ import GtfsVerif.Gen.Inventory
 
 In the model a Go map has no order: every place where the Go code ranges over a map is either
 followed by a sort on a key that is unique in that collection, or touches each entry independently.
-The list of range-over-map sites is regenerated from the source on every run; a new one (or a
-removed sort) makes `C06_map_ranges_covered` fail or leaves the correspondence, where the oracle
+The list of range-over-map sites is regenerated from the source on every run and classified
+structurally by the extractor; a loop that is neither (or a removed sort) makes
+`C06_map_ranges_covered` fail or leaves the correspondence, where the oracle
 parses the same bytes repeatedly, with one options object, after other inputs, and in a second
 process. -/
 namespace Gtfs
 
-/-- every `range` over a map in the library, with what makes its visiting order unobservable -/
-def coveredMapRanges : List (String × String) := [
-  ("gtfs.ParseRealtime: tripsById", "result.Trips is sorted by TripID.Less afterwards; the keys are pairwise distinct (C07_trips_sorted_unique), so the sorted order is unique"),
-  ("gtfs.ParseRealtime: vehiclesByID", "result.Vehicles (the id-bearing part) is sorted by (id, label, licence plate) afterwards; keys are distinct (C07_vehicles_unique_ids)"),
-  ("gtfs.ParseStatic: serviceIdToService", "result.Services is sorted by service id afterwards; ids are the map's keys, hence distinct (C11_one_service_per_id)"),
-  ("gtfs.parseAlert: informedRoutesFromTripIDs", "only the keys are collected, then sorted (sort.Strings) before the entities are appended"),
-  ("gtfs.parseScheduledStopTimes: idToTrip", "each iteration sorts one trip's own stop times; iterations are independent"),
-  ("gtfs.parseShapes: shapeIDToRowData", "each iteration builds one shape; the shapes are sorted by id afterwards (ids are the keys, distinct)"),
-  ("journal.BuildJournal: activeTrips", "each iteration marks one trip past; iterations touch distinct trips"),
-  ("journal.BuildJournal: trips", "only the UIDs are collected, then sorted (sort.Strings); the journal is emitted in that order")]
+/-- The extractor classifies every `range` over a map structurally: **independent** – the body
+    writes only through the iteration's own key/value (its own entry of another map, a method of its
+    own value, a sort of its own slice) – or **collect-then-sort** – besides that, the body only
+    appends to slices each of which is sorted afterwards in the same function. A loop it cannot
+    classify (an assignment to a shared variable, a call with outside effects, a `break`/`return`
+    that leaves at an order-dependent point, a collected slice that is not sorted) is listed in
+    `mapRangesUnclassified`.
 
-/-- **every range-over-map site of today's source is one whose order cannot reach the output** -/
-theorem C06_map_ranges_covered :
-    Gen.Inventory.mapRanges.all (fun s => (coveredMapRanges.map (·.1)).contains s) = true := by decide
+    Why a sort makes the order unobservable – the keys sorted on are pairwise distinct:
+    Trips (`C07_trips_sorted_unique`), identified Vehicles (`C07_vehicles_unique_ids`), Services (keys of
+    the map, `C11_one_service_per_id`), shapes (keys of the map), route fallbacks and journal UIDs (keys of
+    the map, sorted as strings). -/
+theorem C06_map_ranges_covered : Gen.Inventory.mapRangesUnclassified = [] := by decide
+
+/-- today's sites and their classification (pinned for the record; a moved or renamed loop changes
+    this list without affecting the theorem above) -/
+example : Gen.Inventory.mapRangeClasses.length = Gen.Inventory.mapRanges.length := by decide
 
 /-- the model has no hidden input: the realtime result is determined by the decoded message and the
     extension configuration; nothing survives from one parse to the next (the extension's
